@@ -496,8 +496,13 @@ def skip_param_attrs(p):
 
 ICMP = {'eq':'==','ne':'!=','ugt':'>','uge':'>=','ult':'<','ule':'<=','sgt':'>','sge':'>=','slt':'<','sle':'<='}
 
-def emit_function(g, f, out):
+def emit_function(g, f, out, resumable=False, yield_filter=None):
     fg = FuncGen(g)
+    allocas = set()
+    def yields(cty, addr):
+        # partial order reduction hook: only accesses whose "ctype:address" matches the filter are scheduling points
+        if not resumable or addr in allocas: return False
+        return yield_filter is None or re.search(yield_filter, '%s:%s' % (cty, addr)) is not None
     m = g.m
     decls = []      # (ctype, name)
     lines = []
@@ -597,6 +602,7 @@ def emit_function(g, f, out):
                     if p.peek()[1] != 'align':
                         ct = p.type(); cnt = fg.const(p, ct)
                 nm = fg.local(dest)
+                allocas.add(nm)
                 if cnt:
                     decls.append((g.ctype(ty), nm + '_mem[%s]' % cnt)); decls.append((g.ctype(PtrTy(ty)), nm))
                     lines.append('  %s = %s_mem;' % (nm, nm))
@@ -606,6 +612,7 @@ def emit_function(g, f, out):
             elif op == 'load':
                 atomic = p.accept('atomic'); vol = p.accept('volatile')
                 ty = p.type(); p.expect(','); pt = p.type(); a = fg.const(p, pt)
+                if yields(g.ctype(ty), a): lines.append('  VF_YIELD(1, %s);' % a)
                 if vol or atomic:
                     define(dest, ty, 'VF_VLOAD(%s, %s)' % (g.ctype(ty), a))
                 else:
@@ -613,6 +620,7 @@ def emit_function(g, f, out):
             elif op == 'store':
                 atomic = p.accept('atomic'); vol = p.accept('volatile')
                 ty = p.type(); v = fg.const(p, ty); p.expect(','); pt = p.type(); a = fg.const(p, pt)
+                if yields(g.ctype(ty), a): lines.append('  VF_YIELD(2, %s);' % a)
                 if vol or atomic: lines.append('  VF_VSTORE(%s, %s, %s);' % (g.ctype(ty), a, v))
                 else: lines.append('  *%s = %s;' % (a, v))
             elif op == 'getelementptr':
@@ -723,8 +731,28 @@ def emit_function(g, f, out):
                 lines.append('  VF_UNREACHABLE();')
             elif op == 'fence':
                 lines.append('  VF_FENCE();')
-            elif op in ('atomicrmw','cmpxchg'):
-                raise SyntaxError('atomic rmw unsupported in spike: ' + ins)
+            elif op == 'atomicrmw':
+                # executed as one indivisible step (single yield point before it)
+                p.accept('volatile'); rop = p.next()[1]; pt = p.type(); a = fg.const(p, pt); p.expect(','); ty = p.type(); v = fg.const(p, ty)
+                if yields(g.ctype(ty), a): lines.append('  VF_YIELD(3, %s);' % a)
+                ct = g.ctype(ty)
+                define(dest, ty, 'VF_VLOAD(%s, %s)' % (ct, a))
+                old = fg.local(dest)
+                if rop == 'xchg': new = v
+                elif rop in ('add','sub','and','or','xor'): new = fg.binop(rop, ty, old, v)
+                elif rop == 'nand': new = '((%s)~(%s & %s))' % (ct, old, v)
+                elif rop in ('umax','umin'): new = '(%s %s %s ? %s : %s)' % (old, '>' if rop == 'umax' else '<', v, old, v)
+                elif rop in ('max','min'): new = '(%s %s %s ? %s : %s)' % (fg.sx(ty, old), '>' if rop == 'max' else '<', fg.sx(ty, v), old, v)
+                else: raise SyntaxError('atomicrmw op ' + rop)
+                lines.append('  VF_VSTORE(%s, %s, %s);' % (ct, a, new))
+            elif op == 'cmpxchg':
+                p.accept('weak'); p.accept('volatile'); pt = p.type(); a = fg.const(p, pt); p.expect(','); ty = p.type(); cmpv = fg.const(p, ty)
+                p.expect(','); ty2 = p.type(); newv = fg.const(p, ty2)
+                if yields(g.ctype(ty), a): lines.append('  VF_YIELD(3, %s);' % a)
+                ct = g.ctype(ty); rty = StructTy([ty, IntTy(1)], False)
+                define(dest, rty, '(%s){0}' % g.ctype(rty))
+                d = fg.local(dest)
+                lines.append('  %s.f0 = VF_VLOAD(%s, %s); %s.f1 = (u1)(%s.f0 == %s); if (%s.f1) VF_VSTORE(%s, %s, %s);' % (d, ct, a, d, d, cmpv, d, ct, a, newv))
             else:
                 raise SyntaxError('unsupported instruction: ' + ins)
     params = ', '.join('%s %s' % (g.ctype(t), fg.local(n)) for t, n, bv in f.params) or 'void'
@@ -733,7 +761,51 @@ def emit_function(g, f, out):
     for t, n in decls:
         if n in seen: continue
         seen.add(n); dl.append('  %s %s;' % (t, n))
-    out.append(sig + '\n{\n' + '\n'.join(dl) + '\n' + '\n'.join(lines) + '\n}\n')
+    plain = [l for l in lines if not l.strip().startswith('VF_YIELD(')]
+    out.append(sig + '\n{\n' + '\n'.join(dl) + '\n' + '\n'.join(plain) + '\n}\n')
+    if resumable:
+        # resumable rendering: locals live in a context struct; the function returns to its caller before
+        # every memory access (VF_YIELD) and continues from there on the next NAME__step() call
+        nm = cid(f.name)
+        fields = []; macros = []
+        seen = set()
+        for t, n in decls:
+            if n in seen: continue
+            seen.add(n); fields.append('  %s %s;' % (t, n)); macros.append(n.split('[')[0])
+        pnames = []
+        for t, n, bv in f.params:
+            pn = fg.local(n); pnames.append((g.ctype(t), pn))
+            if pn not in seen: fields.append('  %s %s;' % (g.ctype(t), pn)); macros.append(pn); seen.add(pn)
+        void = isinstance(f.ret, VoidTy)
+        rs = ['struct vf_ctx_%s {\n  int vf_pc; int vf_done; int vf_kind; const void* vf_addr;%s\n%s\n};' % (nm, '' if void else ' %s vf_ret;' % g.ctype(f.ret), '\n'.join(fields)),
+              'static struct vf_ctx_%s vf_ctx0_%s, vf_ctx1_%s;' % (nm, nm, nm),
+              'void* %s__ctx(int i) { return i ? &vf_ctx1_%s : &vf_ctx0_%s; }' % (nm, nm, nm),
+              'void %s__start(void* c_%s) { struct vf_ctx_%s* c = (struct vf_ctx_%s*)c_; c->vf_pc = 0; c->vf_done = 0; c->vf_kind = 0; c->vf_addr = 0; %s }' % (
+                  nm, ''.join(', %s p%d' % (ct, i) for i, (ct, pn) in enumerate(pnames)), nm, nm,
+                  ' '.join('c->%s = p%d;' % (pn, i) for i, (ct, pn) in enumerate(pnames)))]
+        if not void:
+            rs.append('%s %s__result(void* c_) { return ((struct vf_ctx_%s*)c_)->vf_ret; }' % (g.ctype(f.ret), nm, nm))
+        body = []; ny = 0
+        for l in lines:
+            st = l.strip()
+            if st.startswith('VF_YIELD('):
+                ny += 1
+                kind, addr = st[len('VF_YIELD('):-2].split(', ', 1)
+                body.append('  c->vf_pc = %d; c->vf_kind = %s; c->vf_addr = (const void*)(%s); return 0; VF_R%d: ;' % (ny, kind, addr, ny))
+            elif st == 'return;':
+                body.append('  { c->vf_done = 1; c->vf_kind = 0; c->vf_addr = 0; return 1; }')
+            elif st.startswith('return '):
+                body.append('  { c->vf_ret = %s; c->vf_done = 1; c->vf_kind = 0; c->vf_addr = 0; return 1; }' % st[len('return '):-1])
+            else:
+                body.append(l)
+        sw = '  switch (c->vf_pc) { %s default: break; }' % ' '.join('case %d: goto VF_R%d;' % (i, i) for i in range(1, ny + 1))
+        rs.append('int %s__step(void* c_)\n{\n  struct vf_ctx_%s* c = (struct vf_ctx_%s*)c_;\n  if (c->vf_done) return 1;\n%s\n%s\n%s\n  c->vf_done = 1; return 1;\n%s\n}\n' % (
+            nm, nm, nm, '\n'.join('#define %s (c->%s)' % (x, x) for x in macros), sw, '\n'.join(body), '\n'.join('#undef %s' % x for x in macros)))
+        rs.append('int %s__yield_points(void) { return %d; }' % (nm, ny))
+        # the access the next __step() call will perform: kind 0 none (not started / finished), 1 load, 2 store, 3 atomic read-modify-write
+        rs.append('int %s__next_kind(void* c_) { return ((struct vf_ctx_%s*)c_)->vf_kind; }' % (nm, nm))
+        rs.append('const void* %s__next_addr(void* c_) { return ((struct vf_ctx_%s*)c_)->vf_addr; }' % (nm, nm))
+        out.append('\n'.join(rs) + '\n')
     return sig
 
 def intrinsic(g, fg, name, cargs, args, rty):
@@ -785,10 +857,16 @@ typedef unsigned char u1;
 #define VF_VSTORE(T, p, v) (*(volatile T*)(p) = (v))
 #endif
 #define VF_FENCE() ((void)0)
+#ifndef VF_BSWAP32
+#define VF_BSWAP16(x) ((uint16_t)((((uint16_t)(x)) >> 8) | (((uint16_t)(x)) << 8)))
+#define VF_BSWAP32(x) ((uint32_t)((((uint32_t)(x)) >> 24) | ((((uint32_t)(x)) >> 8) & 0xff00u) | ((((uint32_t)(x)) << 8) & 0xff0000u) | (((uint32_t)(x)) << 24)))
+#define VF_BSWAP64(x) ((uint64_t)(((uint64_t)VF_BSWAP32((uint32_t)(x)) << 32) | (uint64_t)VF_BSWAP32((uint32_t)(((uint64_t)(x)) >> 32))))
+#endif
 '''
 
-def translate(src):
-    """LLVM-14 textual IR (typed pointers) -> C text"""
+def translate(src, resumable=(), yield_filter=None):
+    """LLVM-14 textual IR (typed pointers) -> C text; functions whose C name matches one of the regexes in
+    `resumable` additionally get a resumable rendering NAME__ctx/__start/__step/__result (see emit_function)"""
     m = parse_module(src)
     g = Gen(m)
     outl = []
@@ -820,7 +898,10 @@ def translate(src):
         args = ', '.join(g.ctype(a) for a in ft.args) or 'void'
         protos.append('%s %s(%s);' % (g.ctype(ft.ret), cid(nm), args))
     for nm in m.forder:
-        sig = emit_function(g, m.funcs[nm], out_funcs)
+        # formatting code (functions taking a std::ostream, e.g. delta_time::print / operator<<) is dropped, see DESIGN.md 3.6
+        if 'class.std::basic_ostream' in m.funcs[nm].text.split('{\n', 1)[0]: continue
+        res = any(re.fullmatch(r, cid(nm)) for r in resumable)
+        sig = emit_function(g, m.funcs[nm], out_funcs, resumable=res, yield_filter=yield_filter)
         protos.append(sig + ';')
     pr(PRELUDE)
     pr('#define bcmp memcmp')
